@@ -1,7 +1,7 @@
 SPECIFICATION Spec
 CONSTANTS
-  DSNames = {"empty", "tiny2", "basic", "meta", "hist", "delta"}
-  Grans = {100, 1000}
+  DSNames = {"empty", "tiny2", "basic", "meta", "hist", "delta", "wayloc"}
+  Grans = {100, 1000, 1}
   Offs = {0, 300}
   DGrans = {1000, 60000}
   Sizes = {"normal"}
